@@ -333,6 +333,33 @@ def run(ctx):
                 hh = mi_ = ss_ = 0
             want = "%04d%02d%02d%02d%02d%02d" % (y, m_, d_, hh, mi_, ss_)
         objs.append((kind, obj, want, (y, m_, d_, hh, mi_, ss_)))
+    # wall-clock values inside the hour that daylight saving time skips or repeats in some zone, and objects that know
+    # their zone: the digits of a value are its own components wherever (and in whichever zone) the process runs
+    for (y, m_, d_, hh) in ((2023, 3, 26, 2), (2023, 10, 29, 2), (2024, 3, 10, 2), (2024, 11, 3, 1), (2024, 3, 31, 2),
+                            (2024, 10, 6, 2), (2025, 4, 6, 2), (1970, 1, 1, 0), (2038, 1, 19, 3)):
+        for kind in ("date", "time", "datetime"):
+            mi_, ss_ = r.choice([0, 30, 59]), r.choice([0, 59])
+            tzi = r.choice([None, None, _dtm.timezone.utc, _dtm.timezone(_dtm.timedelta(hours=5, minutes=30)),
+                            _dtm.timezone(_dtm.timedelta(hours=-11))])
+            obj = _dtm.datetime(y, m_, d_, hh, mi_, ss_, tzinfo=tzi, fold=r.choice([0, 1]))
+            want = {"date": "%04d%02d%02d" % (y, m_, d_), "time": "%02d%02d%02d" % (hh, mi_, ss_),
+                    "datetime": "%04d%02d%02d%02d%02d%02d" % (y, m_, d_, hh, mi_, ss_)}[kind]
+            objs.append((kind, obj, want, (y, m_, d_, hh, mi_, ss_)))
+    zones = [None, "UTC", "Europe/Berlin", "America/New_York", "Australia/Sydney", "Australia/Lord_Howe", "Asia/Kolkata",
+             "CET-1CEST,M3.5.0,M10.5.0/3", "EST5EDT,M3.2.0,M11.1.0"]
+    import os as _os
+    import time as _time
+    old_tz = _os.environ.get("TZ")
+
+    def set_zone(z):
+        if z is None:
+            if old_tz is None:
+                _os.environ.pop("TZ", None)
+            else:
+                _os.environ["TZ"] = old_tz
+        else:
+            _os.environ["TZ"] = z
+        _time.tzset()
     lines = ["dateobj %s %d %d %d %d %d %d" % ((k,) + parts) for k, _o, _w, parts in objs]
     model = common.drive(lines) if ctx.driver_ok else [None] * len(lines)
     cls_of_ = {"date": fields.DateField, "time": fields.TimeField, "datetime": fields.DateTimeField}
@@ -341,12 +368,18 @@ def run(ctx):
         case = {"kind": k, "object": repr(obj)}
         dob.case(case)
         dob.count("%s<-%s" % (k, type(obj).__name__))
+        zone = r.choice(zones)
+        case["process_time_zone"] = zone
+        dob.count("zone " + ("unchanged" if zone is None else "set"))
+        set_zone(zone)
         try:
             got = fobj._set_value(obj)
         except Exception as e:  # noqa
             dob.fail(dict(case, error=repr(e)[:100]), "a %s object is refused by a %s field" % (type(obj).__name__, k),
                      "date-time-objects/refused")
             continue
+        finally:
+            set_zone(None)
         if got != want:
             dob.fail(dict(case, stored=got, expected=want), "a %s object is stored as %r, its own digits are %r" % (
                 type(obj).__name__, got, want), "date-time-objects/digits")
